@@ -152,6 +152,7 @@ def run(ctx):
                                                         "length a = 5\nstrand s = a\nstructure S = + : .\n",
                                                         "length a = 5\nX = a +\nY = + a\nZ = a + + a\n", "sequence a = acgt\n",
                                                         "length a = 0\nX = a a*\nlength a = 3\n", "length a* = 4\nX = a^ a^*\n")]
+        reqs += [("read_pil_model", [t, None]) for _k, t in c16mod.FIXED_DOCUMENTS]      # huge and zero lengths
         diffs += correspond(ctx, "fault-streams", reqs)
         # 4. user classes in the reader slots, a document read and held before, registries, release
         ctab = run_impl([("registry_classes", None)])[0]
@@ -317,7 +318,6 @@ PARTIAL = [
     "reader_declared_only_full: a refused read raises a kind of the declared list (proved: the kind is none of the interpreter-"
     "level fault kinds; the model-level kinds OutOfFuel / BadRequest / Unmodelled / UserInitError are not excluded by a theorem, "
     "the correspondence treats the first three as disagreements)",
-    "lengths above sys.maxsize (len() raises OverflowError in CPython) are not modelled by Registry.obj_len",
 ]
 
 
